@@ -106,7 +106,14 @@ type SetCase struct {
 	Wire     []string `json:"wire"`
 }
 
+// Deviation: an observation on the real code that is documented, not reported as a violation.
+type Deviation struct {
+	What  string `json:"what"`
+	Input string `json:"input"`
+}
+
 type Out struct {
+	Deviations []Deviation `json:"deviations"`
 	ECases   []ECase        `json:"ecases"`
 	DCases   []DCase        `json:"dcases"`
 	SetCases []SetCase      `json:"setcases"`
@@ -1280,6 +1287,52 @@ func TestGen(t *testing.T) {
 			rc.roundTrips(t, enc, true)
 			encs = append(encs, enc)
 		}
+	}
+
+	// wire-format ambiguity witness (see C14_envelope_roundtrip_Att_legacy_refuted_ambiguous): a legacy attestation
+	// whose slot is F*2^32+20 (F = fixed size of the attestation) and whose aggregation bits have >= 9 bytes
+	for _, e := range cat {
+		if e.GoType != "VersionedAttestation" || !strings.HasSuffix(e.Name, "/noidx") {
+			continue
+		}
+		a := e.Gen(t, newGen(t, seed+77, 1, 0)).(core.VersionedAttestation)
+		fixedPart := uint64(228)
+		if a.Electra != nil || a.Fulu != nil {
+			fixedPart = 236
+		}
+		d, _ := a.Data()
+		d.Slot = eth2p0.Slot(fixedPart<<32 | 20)
+		bits := make([]byte, 12)
+		bits[11] = 1
+		switch {
+		case a.Electra != nil:
+			a.Electra.AggregationBits = bits
+		case a.Fulu != nil:
+			a.Fulu.AggregationBits = bits
+		default:
+			for _, p := range []*eth2p0.Attestation{a.Phase0, a.Altair, a.Bellatrix, a.Capella, a.Deneb} {
+				if p != nil {
+					p.AggregationBits = bits
+				}
+			}
+		}
+		b, err := a.MarshalSSZ()
+		if err != nil {
+			t.Fatalf("ambiguity witness does not encode: %v", err)
+		}
+		var back core.VersionedAttestation
+		rc.stat("ambiguity_templates", 1)
+		if err := back.UnmarshalSSZ(b); err == nil && back.ValidatorIndex != nil {
+			bd, _ := back.Data()
+			rc.out.Deviations = append(rc.out.Deviations, Deviation{
+				What: fmt.Sprintf("%s with data.slot=%d and 12 bytes of aggregation bits decodes from its own SSZ encoding as an attestation with validator index %d and data.slot=%d",
+					e.Name, uint64(d.Slot), uint64(*back.ValidatorIndex), uint64(bd.Slot)),
+				Input: hex.EncodeToString(b)})
+		} else if err != nil || same(a, back) != "" {
+			rc.find(Finding{Key: "C14:roundtrip:VersionedAttestation:noidx-ambiguous-slot:ssz", Class: "roundtrip", Type: "VersionedAttestation", Op: "ssz",
+				Duty: int(core.DutyAttester), Signed: true, Format: "ssz", Input: hex.EncodeToString(b), Msg: fmt.Sprintf("unexpected outcome on the ambiguity witness: err=%v", err), Entry: e.Name})
+		}
+		rc.envelopeCase(t, e, b, "ambiguous-slot")
 	}
 
 	// ---- (a) envelope correspondence
